@@ -60,6 +60,12 @@ CHECKS = {
                      "also under allocation failure; invariants on rc, errno, bytes delivered, NULL-on-failure, no crash/abort/hang; success on an invalid "
                      "structure must decode back to an equal value.",
                 note="Structures reachable through BER decoding plus seven walker transformations; sizes sampled above 64 bytes; one fault per call."),
+    "C12": dict(level="exploration", engine="compiler-monitor", ref="DESIGN.md 4/C12",
+                technique="history monitor over repeated / permuted / print-reparse runs of the ASan-built asn1c with byte comparison of outputs",
+                text="The asn1c of the current tree is run on generated single- and multi-module sets and on the shipped modern-syntax corpus: twice (three times) under "
+                     "perturbed ASLR, MALLOC_PERTURB_, environment size and build flavour with all emitted files compared; under permutations of the file list with the "
+                     "per-type files compared; and through asn1c -E / -E -F print, re-parse, re-print (fixpoint) and, for generated modules, asn1c -P equality.",
+                note="Uninitialised-memory dependence is only seen if it changes output in the runs made; shipped files whose printed text is not re-accepted are listed findings (one per file and diagnostic)."),
 }
 
 PENDING_REASON = "check not implemented yet (bring-up in progress; see DESIGN.md section 9)"
